@@ -121,7 +121,7 @@ func zzAdd(a, b int64) int64 { return a + b }
 // unique keys yields one row per distinct key, ascending, carrying the sum of
 // that key's values.
 func zzH_C10_reduce() { zzReduce(2, 2, 5, 2, false) }
-func zzH_C10_reduce_deep() { zzReduce(2, 3, 6, 2, false) }
+func zzH_C10_reduce_deep() { zzReduce(2, 2, 6, 3, false) }
 
 // zzH_C10_reduce_err: an input's read error during the reducing merge is
 // reported, sticky, and never swallowed as end of stream.
@@ -228,7 +228,7 @@ func ZZStubCleanup(dir sliceio.Spiller) error { zzCleaned++; return nil }
 // reads that return no rows without ending), and removes its spill files
 // before returning.
 func zzH_C10_sortReader() { zzSortHarness(3, 5, 2) }
-func zzH_C10_sortReader_deep() { zzSortHarness(4, 5, 2) }
+func zzH_C10_sortReader_deep() { zzSortHarness(4, 4, 2) }
 
 func zzSortHarness(maxRows, calls, maxDst int) {
 	defer zzSetChunk(2)()
